@@ -438,6 +438,21 @@ func isBasicNumberKind(kind reflect.Kind) bool {
 
 func convToBasicNumber(source interface{}, target reflect.Type) (interface{}, error) {
 	if v, ok := source.(*decimal.Big); ok {
+		if i, fits := v.Int64(); fits {
+			// the whole part fits an int64: take it as it is, a float64 keeps only 53 bits of it
+			switch target.Kind() {
+			case reflect.Int8:
+				return int8(i), nil
+			case reflect.Int16:
+				return int16(i), nil
+			case reflect.Int:
+				return int(i), nil
+			case reflect.Int32:
+				return int32(i), nil
+			case reflect.Int64:
+				return i, nil
+			}
+		}
 		f, _ := v.Float64()
 		switch target.Kind() {
 		case reflect.Int8:
